@@ -4,6 +4,7 @@ package daemon
 import (
 	"context"
 	"sync"
+	"sync/atomic"
 
 	"verifrt"
 
@@ -215,4 +216,36 @@ func H_C20_rerun() {
 	if err == nil {
 		verifrt.Assert(verifrt.GhostInt("started:a2") == 1 && verifrt.GhostInt("returned:a2") == 1, "a worker that was accepted under a re-used name was not started, cancelled and awaited by the shutdown")
 	}
+}
+
+// H_C20_start_race: Start racing with ShutdownAndWait on a daemon with a registered worker: either the worker is
+// never started, or it is started, cancelled and awaited; once both calls have returned nothing is left running,
+// and a later Start starts nothing.
+//
+//verif:h prop=C20 preempt=2/3 cover=started,not-started runs=30000000 timeout=280/900 steps=400000
+func H_C20_start_race() {
+	d := New()
+	var started, returned atomic.Int32
+	verifrt.Assert(d.BackgroundWorker("w", func(ctx context.Context) {
+		started.Add(1)
+		<-ctx.Done()
+		returned.Add(1)
+	}, 1) == nil, "BackgroundWorker refused a new worker")
+	var wg sync.WaitGroup
+	wg.Add(2)
+	go func() { defer wg.Done(); verifrt.MustFinish(); d.Start() }()
+	go func() { defer wg.Done(); verifrt.MustFinish(); d.ShutdownAndWait() }()
+	verifrt.MustFinish()
+	wg.Wait()
+	// ShutdownAndWait has returned: a worker that was started by the racing Start must have been shut down by it,
+	// or (when Start came later) must not have been started at all
+	d.ShutdownAndWait() // a second call waits for whatever the first could not see
+	if started.Load() == 0 {
+		verifrt.Cover("not-started")
+	} else {
+		verifrt.Cover("started")
+	}
+	verifrt.Assert(started.Load() == returned.Load(), "after Start raced with ShutdownAndWait a started worker is still running although the daemon is stopped (never cancelled or awaited)")
+	d.Start()
+	verifrt.Assert(started.Load() == returned.Load(), "Start after the shutdown started a worker")
 }
